@@ -14,6 +14,7 @@ Directives (comment lines starting with `//@`, arguments shell-quoted):
   (any extract form may end with  after "LIT0" : the anchor is then the first match below the unique line containing LIT0)
   //@ rewrite NAME "FROM" => "TO"                         literal replacement, must apply >= 1 time
   //@ rewrite? NAME "FROM" => "TO"                        same, but may apply 0 times (recorded)
+  //@ rewrite-re NAME "REGEX" => "TO"                      regular-expression replacement (python re, \\1 back-references), must apply >= 1 time; `rewrite-re?` may apply 0 times
   //@ drop NAME from "LIT_A" through "LIT_B" as "TEXT"    replaces whole lines [line containing LIT_A ..
                                                           line containing LIT_B] by TEXT (recorded as a drop); `drop?` may not apply
   //@ insert NAME before "LIT" : TEXT                     LIT must occur exactly once
@@ -183,6 +184,17 @@ def build(template_path, repo=None):
                 raise stage.LostAnchor("%s: rewrite source %r not present in %s" % (u.name, frm, name))
             pieces[name] = pieces[name].replace(frm, to)
             rec["rewrites"].append("%s: %r -> %r (%d occurrence(s))" % (name, frm, to, n))
+        elif op in ("rewrite-re", "rewrite-re?"):
+            # regular-expression form (python `re`, \\1 back-references): for syntactic families such as `<path> as f64`
+            name, frm, to = t[1], t[2], t[4]
+            new, n = re.subn(frm, to, pieces[name])
+            if n < 1 and op == "rewrite-re?":
+                rec["rewrites"].append("%s: optional regex rewrite %r -> %r did not apply" % (name, frm, to))
+                continue
+            if n < 1:
+                raise stage.LostAnchor("%s: regex rewrite source %r not present in %s" % (u.name, frm, name))
+            pieces[name] = new
+            rec["rewrites"].append("%s: regex %r -> %r (%d occurrence(s))" % (name, frm, to, n))
         elif op in ("drop", "drop?"):
             name, la, lb, rep = t[1], t[3], t[5], t[7]
             ls = pieces[name].splitlines(keepends=True)
